@@ -547,6 +547,11 @@ class FindNearest:
                                      % (v, i, a[i] if 0 <= i < len(a) else None, dist[i] if 0 <= i < len(a) else None, min(dist), dist.index(min(dist))), c)
                         elif not c['sorted'] and i != dist.index(min(dist)):
                             chk.fail('find_nearest|unsorted-tie-not-first', 'value %s: argmin returns the first closest index %d, got %d' % (v, dist.index(min(dist)), i), c)
+                        elif min(dist) == 0 and i != a.index(v):
+                            chk.fail('find_nearest|exact-hit-not-first-occurrence', 'value %s occurs first at index %d, got %d' % (v, a.index(v), i), c)
+                        elif c['sorted'] and a[i] != max(x for x, dd in zip(a, dist) if dd == min(dist)):
+                            chk.fail('find_nearest|sorted-tie-not-larger-entry', 'value %s is equally close to %s and %s; sorted mode returns the larger entry (strict < in the tie rule), got index %d'
+                                     % (v, min(x for x, dd in zip(a, dist) if dd == min(dist)), max(x for x, dd in zip(a, dist) if dd == min(dist)), i), c)
         if m is not NOMODEL:
             chk.traces += 1
             mm = model_res(m, list)
@@ -666,7 +671,7 @@ class MinOfDict:
                 chk.fail('min_of_dict|wrong-min', 'got %r, the minimum value %s is first attained at key %r' % (r[1], vals[i], to_py(pairs[i][0])), c)
         if m is not NOMODEL:
             chk.traces += 1
-            mm = model_res(m, lambda t: (qv(t[0]), from_ov(t[1])))
+            mm = model_res(m, lambda t: (Fraction(t[0], t[1]), from_ov(t[2])))   # Coq prints ((n, d), k) as (n, d, k)
             if mm[0] == 'err':
                 if not (r[0] == 'err' and r[1] == mm[1]): chk.mismatch('min_of_dict: model Err %s vs %r' % (mm[1], r[:2]), c)
             elif r[0] != 'ok' or F(r[1][0]) != mm[1][0] or canon(r[1][1]) != mm[1][1]:
@@ -1303,7 +1308,7 @@ def run(chk):
     chk.assume += ['floating-point rounding is not modelled (exact rationals); generated numbers are ints/dyadics or compared at 1e-12..1e-10 absolute',
                    'dict keys are hashable atoms None|int|float|str; bool, nan and inf are outside the model']
     chk.proof()
-    per = 60 if chk.tier == 'quick' else 700
+    per = 220 if chk.tier == 'quick' else 2200
     explore(chk, per)
     if (chk.broken or chk.mismatches) and not chk.fails:
         explore(chk, per * (6 if chk.tier == 'quick' else 2), do_model=False)
